@@ -403,7 +403,9 @@ def r7(run, ctx):
                           "'%s' events carry process_pid" % t, f, f.node,
                           construct='process_pid in %s' % t)
     wf = ctx.fn(W + 'notify_event')
-    run.check('R7', "'watcher.%s.%s' % (name, topic)" in norm_text(wf.node),
+    shapes = [astq.fstring_parts(x, wf.node) for x in ast.walk(wf.node)
+              if isinstance(x, ast.JoinedStr)]
+    run.check('R7', ['watcher.', ('self.res_name', 's'), '.', ('topic', 's')] in shapes,
               'topics are published as watcher.<name>.<topic>', wf, wf.node)
 
 
